@@ -2,9 +2,9 @@ from checks import both, EX
 
 CHECK = {
     'level': 'exploration',
-    'rule': ('closure generator over small scopes of cstl_rbtree (6-14 elements over 1-5 key values; unhinted insert, hinted '
-             'insert and erase for every key applied in every reachable state, the state signature being shape + key + colour '
-             'per node), plus seeded random histories with heavy duplication on pools of 8-4096 elements with ascending/'
+    'rule': ('closure generator over small scopes of cstl_rbtree (6-24 elements over 1-9 key values; unhinted insert, hinted '
+             'insert (key absent or present) and erase for every key applied in every reachable state, the state signature being '
+             'shape + key + colour per node; one scope has two trees linking through different embedded nodes plus swap), plus seeded random histories with heavy duplication on pools of 8-4096 elements with ascending/'
              'descending/organ-pipe/random fills and alternating/ascending/descending/random drains. After every insert and '
              'erase (every 8th above 256 elements, and at every phase boundary) a walker over the header-visible c/p/l/r fields '
              'checks: root black, no red node with a red child, equal black count below both children of every node (i.e. for '
@@ -14,12 +14,15 @@ CHECK = {
              'the repair loop); the counters erase.rb.* / insert.rb.* show the textbook cases driven. A case is distinct by '
              'the (shape, key, colour) signature and non-trivial when >= 2 elements are held; the same tree reached in two different closure scopes counts once per scope.'),
     'assumptions': ['comparison function is a total order on a small integer key',
-                    'hinted inserts only with the parent reported by a find of the same key that missed, no mutation in between',
+                    'hinted inserts only with the parent reported by an immediately preceding find of the same key (found or not), no mutation in between',
+                    'a library call that consumes 10 s of CPU time (not wall clock) without returning is reported as a hang',
                     'the erase/insert case classification is computed from header-visible fields before the call and is evidence only, never an oracle',
                     'gcc 12 ASan/UBSan runtimes; dbg-asan keeps the library asserts live; rel-asan is the NDEBUG build as shipped'],
     'runs': [
         {'harness': 'trees', 'mode': 'rb', 'sources': ['harness/trees.c'] + EX,
-         'configs': both(['dbg-asan', 'rel-asan'])},
+         'configs': both(['dbg-asan', 'rel-asan']),
+         # typical (idle, 16 cores): quick 3-5 s, thorough 70-90 s per configuration; generous because verdicts never depend on it
+         'watchdog': {'quick': 1800, 'thorough': 7200}},
     ],
 }
 
